@@ -70,10 +70,13 @@ def gen_c06(rnd, mode, tier):
     is_async = mode == "asyncio"
     prog = total_program(rnd, is_async)
     nsend = rnd.randint(2, 4 if tier == "thorough" or rnd.random() < 0.3 else 3)
+    tiny = (not is_async) and rnd.random() < 0.5
+    if tiny:
+        nsend = rnd.choice([2, 3, 3, 4])
     senders = []
     for k in range(nsend):
         sends = []
-        for j in range(rnd.randint(1, 3 if not is_async else 4)):
+        for j in range(1 if tiny else rnd.randint(1, 3 if not is_async else 4)):
             s = {"event": rnd.choice(prog["events"]), "tok": f"S{k}.{j}"}
             if is_async:
                 s["think"] = rnd.choice([0, 0, 0.001, 0.002, 0.005, 1, 60])
@@ -115,7 +118,9 @@ def gen_c06(rnd, mode, tier):
           "perm_seed": 0}
     if mode == "threads":
         sc["tseed"] = rnd.randrange(1 << 30)
-        sc["nswitch"] = rnd.choice([1, 2, 2, 3, 4, 6])
+        sc["nswitch"] = rnd.choice([1, 2, 2, 2, 3, 4, 6])
+        sc["victim"] = rnd.random() < 0.5
+        sc["tiny"] = tiny
         sc["tplan"] = None
     return sc
 
@@ -203,22 +208,36 @@ def _exec_async(sc):
     return sm
 
 
+_hot_cache = {}
+
+
+def hot_lines():
+    """(file basename, line number) of every line of the engines that touches the shared queue or the
+    processing lock: the synchronisation points of the dispatch code.  Derived from the source text of
+    the working tree under test, so it follows refactorings."""
+    import os
+    import re
+
+    root = os.path.join(runmod.REPO, "statemachine", "engines")
+    if root not in _hot_cache:
+        hot = set()
+        pat = re.compile(r"_processing\b|_external_queue\b|\.put\(|processing_loop\(")
+        for fn in sorted(os.listdir(root)):
+            if fn.endswith(".py"):
+                for i, line in enumerate(open(os.path.join(root, fn)), 1):
+                    if pat.search(line) and not line.lstrip().startswith(("#", "def ", "async def ")):
+                        hot.add((fn, i))
+        _hot_cache[root] = hot
+    return _hot_cache[root]
+
+
 def _exec_threads(sc, plan, record_sites=False):
     sm = _build(sc)
     SIM.rec(k="activated")
     ts = ThreadSim(runmod.REPO, plan=plan)
     SIM.threads = ts
     sites = []
-    if record_sites:
-        orig = ts._point
-
-        def point(fn, line):
-            import os
-
-            sites.append(os.path.basename(fn))
-            orig(fn, line)
-
-        ts._point = point
+    ts.record = bool(record_sites)
     ts.on_switch = lambda step, a, b, site: SIM.rec(k="sw", step=step, frm=a, to=b, site=site)
 
     def mk(sd):
@@ -255,6 +274,14 @@ def _exec_threads(sc, plan, record_sites=False):
 
 
 def execute(sc):
+    res = runmod.isolated(_execute, sc)
+    if res.get("tplan") is not None:
+        sc["tplan"] = res["tplan"]  # drawn on first execution, stored for replay / minimisation
+        sc["dry_steps"] = res.get("dry_steps")
+    return res
+
+
+def _execute(sc):
     with warnings.catch_warnings(record=True) as wl:
         warnings.simplefilter("always")
         info = {}
@@ -263,26 +290,12 @@ def execute(sc):
                 _exec_async(sc)
             else:
                 if sc.get("tplan") is None:
-                    ts, sites = _exec_threads(sc, [], record_sites=True)
-                    total = ts.step
+                    ts, _sites = _exec_threads(sc, [], record_sites=True)
                     rnd = random.Random(sc["tseed"])
                     names = [sd["id"] for sd in sc["senders"]]
-                    # half of the change points are drawn among the steps inside the dispatch code
-                    disp = [i + 1 for i, f in enumerate(sites) if f in DISPATCH_FILES]
-                    eng = [i + 1 for i, f in enumerate(sites) if f in ENGINE_FILES]
-                    plan = []
-                    for _ in range(sc.get("nswitch", 2)):
-                        x = rnd.random()
-                        if eng and x < 0.45:
-                            stp = rnd.choice(eng)
-                        elif disp and x < 0.75:
-                            stp = rnd.choice(disp)
-                        else:
-                            stp = rnd.randint(1, max(total, 1))
-                        plan.append([stp, rnd.choice(names)])
-                    plan.sort()
-                    sc["tplan"] = plan
-                    sc["dry_steps"] = total
+                    sc["tplan"] = draw_plan(rnd, ts.per_thread, names, sc.get("nswitch", 2), hot_lines(),
+                                            ENGINE_FILES, victim=bool(sc.get("victim")))
+                    sc["dry_steps"] = ts.step
                     render.unload_program(sc["programs"][0])
                 ts, _ = _exec_threads(sc, sc["tplan"])
                 info["sites"] = dict(ts.sites)
@@ -298,7 +311,8 @@ def execute(sc):
             vloop.reset_loops()
         caught = [[w.category.__name__, str(w.message)] for w in wl]
     return {"trace": trace, "outs": [], "warnings": caught, "stats": stats, "digest": runmod.digest(trace),
-            "never_awaited": sorted({m for c, m in caught if "never awaited" in m}), "info": info}
+            "never_awaited": sorted({m for c, m in caught if "never awaited" in m}), "info": info,
+            "tplan": sc.get("tplan"), "dry_steps": sc.get("dry_steps")}
 
 
 # --------------------------------------------------------------------------------------------
